@@ -335,18 +335,63 @@ def gen_word(rng):
         else:
             n = rng.randint(1, 9)
             w = "".join(rng.choice(WORD_SAFE) if rng.random() < 0.85 else rng.choice(UNI + ["\u2192", "\u20ac", "\xa0", "\u3000", "\\", "#", "?"]) for _ in range(n))
-        if not w or w in PY_KEYWORD_WORDS:
+        if word_ok(w) and not (w.endswith("?") and rng.random() < 0.5):
+            return w
+
+
+def word_ok(w):
+    """is this text ONE bare word of subprocess mode by the documented syntax (no operator, bracket, quote imbalance, comment start, macro
+    `!`, `${…}` / `@(…)` / `$(…)` sub-expression, regex-glob backtick, redirect, trailing line continuation)?"""
+    if not w or w in PY_KEYWORD_WORDS:
+        return False
+    if w[0] in "#!" or w.endswith("\\") or "`" in w or "!" in w:
+        return False
+    if re.search(r"@[($!]|[$][(\[{]", w) and "${" not in w:
+        return False
+    if "${" in w and not re.fullmatch(r"[^{}]*\$\{['\"]?\w+['\"]?\}?[^{}]*|.*\$\{'XV_A\{'x.*", w):
+        return False
+    if "{" in w or "}" in w:
+        return False  # `${…}` is Python mode (an env lookup expression), `{` alone does not parse: both outside `word`
+    if re.fullmatch(r"\d*>+.*|.*[<>|&;()].*", w, flags=re.S):
+        return False
+    if w.count("[") != w.count("]") or re.search(r"\][^\[]*\[", w) and w.index("]") < w.index("["):
+        return False
+    inq = None
+    for c in w:
+        if inq:
+            inq = None if c == inq else inq
+        elif c in "'\"":
+            inq = c
+        elif c in " \t\n\r\x0b\x0c":
+            return False  # blanks only inside quotes that stay
+    if inq:
+        return False
+    return True
+
+
+def macro_ok(t, closer=None):
+    """is this text acceptable after a macro `!` / inside `@!( )`: one line, brackets balanced, quotes paired, no comment, no continuation?"""
+    if "\n" in t or "\r" in t or "`" in t or re.search(r"(^|\s)#", t) or t.endswith("\\"):
+        return False
+    depth = []
+    pairs = {")": "(", "]": "[", "}": "{"}
+    inq = None
+    for c in t:
+        if inq:
+            if c == inq:
+                inq = None
             continue
-        if w[0] in "#!" or w.endswith("\\") or w.endswith("?") and rng.random() < 0.5:
-            continue
-        if re.search(r"@[($!]|[$][(\[{]", w) and "${" not in w:
-            continue
-        if "${" in w and not re.fullmatch(r"[^{}]*\$\{['\"]?\w+['\"]?\}?[^{}]*|.*\$\{'XV_A\{'x.*", w):
-            continue
-        if "{" in w or "}" in w:
-            continue  # `${…}` is Python mode (an env lookup expression), `{` alone does not parse: both outside `word`
-        if re.fullmatch(r"\d*>+.*|.*[<>|&;()].*", w):
-            continue
+        if c in "'\"":
+            inq = c
+        elif c in "([{":
+            depth.append(c)
+        elif c in pairs:
+            if not depth or depth.pop() != pairs[c]:
+                return False
+    if depth or inq:
+        return False
+    return not (closer and closer in t and False)
+
         return w
 
 
@@ -381,6 +426,8 @@ def gen_macro_text(rng, closer, lb=False):
         t = t.rstrip("\\")
     if closer and closer in t:
         pass
+    if not macro_ok(t):
+        return gen_macro_text(rng, closer, lb)
     if rng.random() < 0.3:
         t = " " * rng.randint(0, 3) + t + " " * rng.randint(0, 3)
     return t
@@ -434,13 +481,14 @@ def gen_lit(b, popen_ok, lb_raw=False, plain=False):
     nparts = 1 if not f else rng.choice([1, 2, 3])
     for i in range(nparts):
         if f and (i % 2 == 1 or (nparts == 1 and rng.random() < 0.3)):
-            obj = rng.choice([gen_value(rng, lone=not popen_ok and rng.random() < 0.1), rng.choice([3, -1, None, 2.5])])
+            obj = rng.choice([gen_value(rng), rng.choice([3, -1, None, 2.5])])
             conv = rng.choice(["", "", "!s", "!r"])
             val = repr(obj) if conv == "!r" else str(obj)
             parts.append({"p": "f", "obj": ["str", codes(obj)] if isinstance(obj, str) else (["none"] if obj is None else (["int", obj] if isinstance(obj, int) else ["float", repr(obj)])),
                           "conv": conv, "value": codes(val)})
         else:
-            s = gen_value(rng, nul=not popen_ok and rng.random() < 0.1, lone=not popen_ok and rng.random() < 0.1, lb=True)
+            # (NUL and lone surrogates outside U+DC80..DCFF only where nothing is expanded: os.path.expanduser's pwd lookup raises on them)
+            s = gen_value(rng, nul=raw and not f and not popen_ok and rng.random() < 0.2, lone=raw and not f and not popen_ok and rng.random() < 0.2, lb=True)
             parts.append({"p": "t", "value": codes(s)})
     return {"k": "lit", "raw": raw, "f": f, "q": q, "prefix": None, "parts": parts, "lb_raw": lb_raw}
 
@@ -537,7 +585,7 @@ def gen_atom(b, popen_ok, kinds):
                     w = "a.b"
                 parts.append(["t", codes(w)])
             elif r < 0.93 or not have_inj:
-                v = gen_pyval(rng, allow_lone=not popen_ok, nul=not popen_ok)
+                v = gen_pyval(rng, allow_lone=False, nul=False)
                 if v[0] == "gen" or (v[0] in ("list", "tuple") and len(v[1]) > 3):
                     v = ["str", codes(gen_value(rng, lone=False))]
                 if rng.random() < 0.5:
@@ -780,7 +828,7 @@ def run_command(ctx, ses, stream, idx, atoms, bang, cmd, form, note=None, sep=No
     blob = "\x00".join(atom_blob(a) for a in atoms) + "\x00" + (bang or "")
     ors = [atom_oracle(a) for a in atoms]
     res = ses.run(src + "\n", b.glbs)
-    case = {"stream": stream, "source": src, "cmd": cmd, "form": form, "atoms": atoms, "bang": bang, "vars": {k: repr(v) for k, v in b.glbs.items()}}
+    case = {"stream": stream, "source": src, "cmd": cmd, "form": form, "sep": sep, "atoms": atoms, "bang": bang, "vars": {k: repr(v) for k, v in b.glbs.items()}}
     if note:
         case["note"] = note
     kinds = "+".join(sorted({a["k"] for a in atoms})) + ("+bang" if bang is not None else "")
@@ -797,28 +845,28 @@ def run_command(ctx, ses, stream, idx, atoms, bang, cmd, form, note=None, sep=No
     which = 1 if cmd == "xvargv" else 0
     m_mine = "crash" if faithful == "crash" else faithful[which]
     lb_in_macro = any(chr(c) in t for t in macro_texts(atoms, bang) for c in LB)
-    # ---- what the PROPERTY says
-    if all(o[0] == "exact" for o in ors):
-        want = [x for o in ors for x in o[1]] + ([bang.strip()] if bang is not None else [])
-        if cmd == "xvargv":
-            want = [x.replace("\0", "\\0") for x in want]
-        basis = "written"
-        ctx.count("oracle/verbatim")
-    elif lb_in_macro:
-        want, basis = None, "documented"  # (not generated together with expansions)
-    else:
+    # ---- what the PROPERTY says (recomputed after a re-run: the glob oracle is what that run recorded)
+    def compute_want():
+        if all(o[0] == "exact" for o in ors):
+            w = [x for o in ors for x in o[1]] + ([bang.strip()] if bang is not None else [])
+            return ([x.replace("\0", "\\0") for x in w] if cmd == "xvargv" else w), "written"
+        if lb_in_macro:
+            return None, "documented"  # (not generated together with expansions)
         # documented expansion is involved: the Lean spec gives the value, with (i) values injected into a word opaque, (ii) the macro
-        # tail simply appended (stripped)
+        # tail simply appended (stripped), (iii) raw f-strings only substituting braces
         patoms = [dict(a, lbb=False) if a["k"] == "macroat" else a for a in protected_atoms(atoms)]
-        spec = call_model(ctx, ses, patoms, None, False, blob, keeps=True)  # the documentation: a raw f-string only substitutes braces
-        want = ["".join(UNPROTECT.get(c, c) for c in x) for x in spec[which]]
+        spec = call_model(ctx, ses, patoms, None, False, blob, keeps=True)
+        w = ["".join(UNPROTECT.get(c, c) for c in x) for x in spec[which]]
         if bang is not None:
-            want.append(bang.strip().replace("\0", "\\0") if cmd == "xvargv" else bang.strip())
-        basis = "documented"
-        ctx.count("oracle/lean-spec")
+            w.append(bang.strip().replace("\0", "\\0") if cmd == "xvargv" else bang.strip())
+        return w, "documented"
 
-    def ok(argv):
-        return want is None or argv == want
+    want, basis = compute_want()
+    ctx.count("oracle/verbatim" if basis == "written" else "oracle/lean-spec")
+
+    def ok(argv, w=None):
+        w = want if w is None else w
+        return w is None or argv == w
 
     def rerun(form2, sep2):
         """does the same command, written with form2 / sep2, behave as the property demands (or, where the faithful model says the
@@ -829,7 +877,7 @@ def run_command(ctx, ses, stream, idx, atoms, bang, cmd, form, note=None, sep=No
         if m_mine == "crash":
             return r2[0] == "exc" and r2[1] == "AttributeError"
         got2 = (r2[2] if cmd == "xvargv" else r2[1]) if r2[0] == "ok" else []
-        return len(got2) == 1 and ok(got2[0])
+        return len(got2) == 1 and ok(got2[0], compute_want()[0])
 
     def fail(observed, why):
         key = None
@@ -853,7 +901,9 @@ def run_command(ctx, ses, stream, idx, atoms, bang, cmd, form, note=None, sep=No
                 key = "bare-line-splitlines-breaks-literal" if source_has_raw(src, LB) else "bare-line-continuation-inside-literal"
         if key is None and form == "bare" and any(a["k"] == "word" and re.match(r"@\w+#", uncodes(a["t"])) for a in atoms) and rerun("![", " "):
             key = "bare-line-word-at-name-hash"
-        if key is None and form == "bare" and any(re.search(r"&&|\|\||\s;$", t.strip()) for t in macro_texts(atoms, bang)) and rerun("![", " "):
+        if key is None and form == "bare" and src.rstrip(" \t")[-1:].isspace() and rerun("![", " "):
+            key = "bare-line-trailing-unicode-space"
+        if key is None and form == "bare" and any(re.search(r";|&&|\|\|", t) for t in macro_texts(atoms, bang)) and rerun("![", " "):
             key = "bare-line-macro-text-chain-token"
         if key is None and ws_errortoken(src) and rerun(form, " "):
             # the same command with spaces for the tabs delivers what is wanted, and the tokenizer did turn a tab into an ERRORTOKEN
@@ -864,7 +914,7 @@ def run_command(ctx, ses, stream, idx, atoms, bang, cmd, form, note=None, sep=No
         return key
 
     outside_model = ("bare-line-splitlines-breaks-literal", "bare-line-continuation-inside-literal", "whitespace-run-before-untokenizable-char",
-                     "bare-line-macro-text-chain-token", "bare-line-word-at-name-hash",
+                     "bare-line-macro-text-chain-token", "bare-line-word-at-name-hash", "bare-line-trailing-unicode-space",
                      "word-with-nonidentifier-wordchar-garbled")
     if res[0] != "ok":
         key = fail({"exception": res[1], "message": res[2]}, "a well-formed command was not run: its arguments never arrived")
@@ -890,6 +940,148 @@ def run_command(ctx, ses, stream, idx, atoms, bang, cmd, form, note=None, sep=No
 
 def source_has_raw(src, chars):
     return any(chr(c) in src for c in chars)
+
+
+class Quiet:
+    """a context that records nothing in the evidence: used to re-run variants of a failing command while shrinking it"""
+
+    def __init__(self, ctx):
+        self.driver, self.rng = ctx.driver, ctx.rng
+        self.spec_failures, self.disagreements = [], []
+
+    def count(self, *a, **k):
+        pass
+
+    def case(self, *a, **k):
+        pass
+
+    def spec_failure(self, case, observed, why, key=None):
+        self.spec_failures.append({"case": case, "observed": observed, "why": why, "key": key})
+
+    def disagree(self, stream, case, impl, model):
+        self.disagreements.append({"case": case, "impl": impl, "model": model})
+
+
+def _shorter_codes(cs):
+    n = len(cs)
+    for size in (max(1, n // 2), max(1, n // 4), 1):
+        for i in range(0, n, size):
+            yield cs[:i] + cs[i + size:]
+
+
+def _rerender(q, a):
+    """write a shrunk literal the plain way (no optional escapes, same prefix / quotes)"""
+    for p in a["parts"]:
+        if p["p"] == "t":
+            if a["raw"] and not a["f"]:
+                if not q.driver.call("c04.rawok", Sym(a["q"]), p["value"]):
+                    return None
+                p["body"] = list(p["value"])
+            elif a["raw"]:
+                return None
+            else:
+                p["body"] = q.driver.call("c04.render", a["f"], bool(a.get("rawnl")), [c in LB and not a.get("lb_raw") for c in p["value"]], p["value"])
+    return a
+
+
+def atom_variants(q, a):
+    import copy
+
+    k = a["k"]
+    if k in ("word", "macroat"):
+        for t in _shorter_codes(a["t"]):
+            if word_ok(uncodes(t)) if k == "word" else macro_ok(uncodes(t)):
+                yield dict(a, t=t)
+    elif k == "lit":
+        for i, p in enumerate(a["parts"]):
+            if len(a["parts"]) > 1:
+                b = copy.deepcopy(a)
+                del b["parts"][i]
+                yield b
+            if p["p"] == "t":
+                for v in _shorter_codes(p["value"]):
+                    b = copy.deepcopy(a)
+                    b["parts"][i]["value"] = v
+                    b = _rerender(q, b)
+                    if b is not None:
+                        yield b
+    elif k == "inject":
+        v = a["val"]
+        if v[0] in ("list", "tuple", "gen"):
+            for i in range(len(v[1])):
+                yield dict(a, val=[v[0], v[1][:i] + v[1][i + 1:]])
+            if len(v[1]) == 1:
+                yield dict(a, val=v[1][0])
+        if v[0] == "str":
+            for t in _shorter_codes(v[1]):
+                yield dict(a, val=["str", t])
+        if a["form"] == "inline":
+            yield dict(a, form="var")
+    elif k == "adj":
+        ps = a["parts"]
+        for i in range(len(ps)):
+            rest = ps[:i] + ps[i + 1:]
+            if len(rest) >= 2 and any(p[0] != "t" for p in rest) and not any(x[0] == "t" and y[0] == "t" for x, y in zip(rest, rest[1:])):
+                yield dict(a, parts=rest)
+        for i, p in enumerate(ps):
+            if p[0] in ("t", "m"):
+                for t in _shorter_codes(p[1]):
+                    if (word_ok(uncodes(t)) and not re.search(r"['\"]", uncodes(t))) if p[0] == "t" else macro_ok(uncodes(t)):
+                        yield dict(a, parts=ps[:i] + [[p[0], t] + p[2:]] + ps[i + 1:])
+            elif p[1][0] == "str":
+                for t in _shorter_codes(p[1][1]):
+                    yield dict(a, parts=ps[:i] + [["i", ["str", t], p[2]]] + ps[i + 1:])
+
+
+def shrink_command(ctx, ses, atoms, bang, cmd, form, sep, want_key=None, budget=400):
+    """smallest variant (fewer atoms, shorter strings, single-space separators) that still fails with the same classification"""
+    import copy
+
+    def still(at, bg, sp):
+        q = Quiet(ctx)
+        try:
+            run_command(q, ses, "shrink", 0, copy.deepcopy(at), bg, cmd, form, sep=sp)
+        except Exception:  # noqa: BLE001
+            return False
+        return any(f["key"] == want_key for f in q.spec_failures)
+
+    q = Quiet(ctx)
+    if sep != " " and still(atoms, bang, " "):
+        sep = " "
+    changed = True
+    while changed and budget > 0:
+        changed = False
+        for i in range(len(atoms)):
+            cand = atoms[:i] + atoms[i + 1:]
+            budget -= 1
+            if (cand or bang is not None) and still(cand, bang, sep):
+                atoms, changed = cand, True
+                break
+        if changed:
+            continue
+        if bang is not None:
+            budget -= 1
+            if atoms and still(atoms, None, sep):
+                bang, changed = None, True
+                continue
+            for t in _shorter_codes(codes(bang)):
+                budget -= 1
+                if macro_ok(uncodes(t)) and still(atoms, uncodes(t), sep):
+                    bang, changed = uncodes(t), True
+                    break
+            if changed:
+                continue
+        for i, a in enumerate(atoms):
+            for v in atom_variants(q, a):
+                budget -= 1
+                if budget <= 0:
+                    break
+                if still(atoms[:i] + [v] + atoms[i + 1:], bang, sep):
+                    atoms, changed = atoms[:i] + [v] + atoms[i + 1:], True
+                    break
+            if changed or budget <= 0:
+                break
+    return atoms, bang, sep
 
 
 def gen_command(ctx, ses, popen_ok, kinds, max_atoms=5, allow_bang=True):
